@@ -514,7 +514,8 @@ func c14Check(c statCase) (v vcase.Verdict) {
 					var a, b float64
 					fmt.Sscanf(g[1], "%f%%", &a)
 					fmt.Sscanf(wantR, "%f%%", &b)
-					if wantR == "?" || g[1] == "?" || math.Abs(a-b) > 0.011 {
+					// (and, for huge ratios, the last bits of exp(mean(log r)) computed in another order)
+					if wantR == "?" || g[1] == "?" || math.Abs(a-b) > 0.011+1e-12*math.Max(math.Abs(a), math.Abs(b)) {
 						fail("table %s column %q: geomean ratio %q, reference %q", k, tb.cols[ck].Vals, g[1], wantR)
 						return
 					}
